@@ -117,7 +117,7 @@ ClassRare ==
     LET who == CHOOSE p \in st'.blamed \ st.blamed : TRUE IN
     IF Refused
     THEN "refuse/" \o st'.out \o "/def" \o (IF st.def = <<>> THEN "0" ELSE "1") \o "/att" \o (IF st'.att > 1 THEN "n" ELSE "1") \o (IF Resumed THEN "/resumed" ELSE "")
-         \o "/" \o (IF \E h \in 1..NN : plan[who][h] # "none" THEN LET h == CHOOSE x \in 1..NN : plan[who][x] # "none" IN plan[who][h] \o "@" \o BlockKind(h) ELSE "honest-blamed")
+         \o "/" \o (IF \E h \in 1..NN : plan[who][h] # "none" THEN LET h == CHOOSE x \in 1..NN : plan[who][x] # "none" IN plan[who][h] \o "@" \o BlockKind(h) \o (IF h = NN THEN "$" ELSE "") ELSE "honest-blamed")
     ELSE IF st'.out = "badsnapshot" \/ st'.out = "nosnapshot" THEN "post/" \o st.man \o (IF Resumed THEN "/resumed" ELSE "")
     ELSE ""
 \* frequent transitions (sampled)
